@@ -36,13 +36,14 @@ type Violation struct {
 
 // Result is what running one case yields.
 type Result struct {
-	Fingerprint string              // canonical description of the case (hashed for distinctness)
-	NonTrivial  bool                // by the property's stated rule
-	Counters    map[string]int64    // summed over cases (clause counters, event histograms, …)
-	Sets        map[string][]string // unioned over cases (distinct shapes seen, …); reported as counts
-	Violations  []Violation
-	Sample      any    // written to the evidence for the first few non-trivial cases
-	Discarded   string // non-empty: the generator's case could not be used (reason), not evaluated
+	Fingerprint  string              // canonical description of the case (hashed for distinctness)
+	NonTrivial   bool                // by the property's stated rule
+	Counters     map[string]int64    // summed over cases (clause counters, event histograms, …)
+	Sets         map[string][]string // unioned over cases (distinct shapes seen, …); reported as counts
+	Violations   []Violation
+	Digest       string // optional: digest of the case's outputs; collected per case index by the orchestrator (C08)
+	Sample       any    // written to the evidence for the first few non-trivial cases
+	Discarded    string // non-empty: the generator's case could not be used (reason), not evaluated
 	Inconclusive string // non-empty: case could not be decided (reason)
 }
 
